@@ -469,6 +469,13 @@ void Router::processActions(void)
     m_transaction_start_time = clock();
     m_abort_transaction = false;
 
+    // Queue any actions generated while the action list is processed (e.g.,
+    // updates for connectors attached to a moved or deleted shape), as
+    // happens when transactions are in use, rather than re-entering
+    // processTransaction() from within this method.
+    const bool consolidateActions = m_consolidate_actions;
+    m_consolidate_actions = true;
+
     std::list<unsigned int> deletedObstacles;
     actionList.sort();
     ActionInfoList::iterator curr;
@@ -635,6 +642,8 @@ void Router::processActions(void)
     }
     // Clear the actionList.
     actionList.clear();
+
+    m_consolidate_actions = consolidateActions;
 }
 
 bool Router::processTransaction(void)
